@@ -27,8 +27,8 @@ func runC19(e *Env) {
 		return
 	}
 	e.Flow(func(c *flow.Ctx) {
-		c.RuleLock(sp, "random", "randomMutex")
-		c.RuleNoOtherGlobals(e.Fn("C19.lock", "uu", "RandomID"), map[string]bool{"random": true, "randomMutex": true})
+		c.RuleLock(sp, e.vname("uu", "random"), e.vname("uu", "randomMutex"))
+		c.RuleNoOtherGlobals(e.Fn("C19.lock", "uu", "RandomID"), map[string]bool{e.vname("uu", "random"): true, e.vname("uu", "randomMutex"): true})
 	})
 	e.S.Floor("C19.lock", 3)
 	ruleRandomBits(e)
